@@ -25,7 +25,7 @@ ASSUMPTIONS = [
     "must-find set = interior local maxima of the curve restricted to f_low <= f <= f_high (the restricted curve's end samples are never interior): the statement does not prescribe how a limit is mapped to a sample",
     "find_peaks_kwargs other than None / {} are outside the oracle (prominence etc. change the definition of a peak)",
 ]
-NOT_REACHED = ["non-increasing frequency grids", "find_peaks_kwargs with prominence/width", "grids above 400 points"]
+NOT_REACHED = ["non-increasing frequency grids", "find_peaks_kwargs with prominence/width", "grids above 4200 points"]
 BUDGET = {"quick": dict(cases=5000, seconds=60, shards=4),
           "thorough": dict(cases=300000, seconds=600, shards=16)}
 REQUIRED = ["mon:query-leaves-peak-state-unchanged", "mon:cached-peak-matches-stored-range", "mon:mean-curve-peak", "mon:nan-peak-not-in-statistics",
@@ -112,6 +112,8 @@ def setup(ctx):
 # -- generators -----------------------------------------------------------------------------
 def gen_grid(rng):
     n = int(rng.choice([3, 4, 5, 6, 8, 12, 20, 50, 128, 400]))
+    if rng.random() < 0.02:
+        n = int(rng.choice([1100, 2100, 4200]))          # un-resampled FFT grids: thousands of samples
     kind = str(rng.choice(["linear", "log", "irregular", "integer"]))
     if kind == "linear":
         f = np.linspace(rng.uniform(0.05, 1), rng.uniform(5, 50), n)
